@@ -45,7 +45,7 @@
 (* write(2) stays, user-space buffers and every volatile variable are      *)
 (* lost.  Crash is enabled in EVERY state, also during recovery.           *)
 (* I/O errors other than "already exists" are outside C07 and not          *)
-(* modelled (their roll-back code is therefore not exercised here).        *)
+(* modelled HERE; StoreFault.tla extends this module with them.           *)
 (***************************************************************************)
 EXTENDS Naturals, Sequences, FiniteSets, TLC, Json, SequencesExt
 
@@ -115,7 +115,7 @@ TypeOK ==
     /\ dsz \in [Heights -> OdsSizes]
     /\ phase \in {"down", "booting", "up"}
     /\ cache \subseteq Heights
-    /\ round \in 0..2
+    /\ round \in 0..3
     /\ nops \in 0..MaxOps /\ ncrash \in 0..MaxCrashes
 
 Init ==
@@ -303,8 +303,12 @@ Join ==
 (* os.Remove of a missing name is not an error: the steps are idempotent.   *)
 
 AfterRmLink == IF IsEmptyH(op.h) THEN "toend" ELSE "rm.ods"   \* empty block: only the link
-AfterRmOds  == IF op.kind = "PutODS" THEN "recreate" ELSE "rm.cache2"
-AfterRmQ4   == IF op.kind = "PutODSQ4" THEN "recreate" ELSE "toend"
+\* round = 3 (only reachable in StoreFault.tla): the removal is put's ROLL-BACK after an I/O fault
+\* (store.go createODSFile: removeODS; createODSQ4File: removeODSQ4), after which put returns the error
+AfterRmOds  == IF round = 3 THEN (IF op.kind = "PutODS" THEN "tofail" ELSE "rm.cache2")
+               ELSE IF op.kind = "PutODS" THEN "recreate" ELSE "rm.cache2"
+AfterRmQ4   == IF round = 3 THEN "tofail"
+               ELSE IF op.kind = "PutODSQ4" THEN "recreate" ELSE "toend"
 
 RmCache1 ==                                                    \* marker: cache.removed
     /\ mpc = "rm.cache1"
